@@ -6,7 +6,7 @@
    source text in Bridge/Dep.v against Model/Dep.v, whose strip_frame is literally DepDecode's prefix handling; see
    bridge_strip_frame_dep below.) *)
 From Coq Require Import ZArith List Bool Lia ZifyBool.
-From NV Require Import Base.Result Base.Bytes Base.PyPrims Model.Pdu Model.DepDecode Model.Pax Model.T3Emu Model.SnepHdr
+From NV Require Import Base.Result Base.Bytes Base.PyPrims Model.Pdu Model.DepDecode Model.Pax Model.T3Emu Model.SnepHdr Model.DepAny
   Gen.RobustK Gen.SnepK Gen.DepK.
 Import ListNotations.
 Open Scope Z_scope.
@@ -151,6 +151,58 @@ Proof.
     destruct (len t' <? 2) eqn:E; cbn [bind]; rewrite ?E; reflexivity.
 Qed.
 
+(* ---- the retry loops grant the frontend what is LEFT until the deadline (Model/DepAny.v) *)
+Theorem bridge_t_listen f c s frame dl :
+  t_listen (S f) c s frame dl =
+  (let t := gen_t_listen_timeout (now s) dl in
+   let (r, s') := xchg c s frame t in
+   match r with
+   | Err TransmissionError => t_listen f c s' None dl
+   | Ok rsp => t_decode c rsp s'
+   | Err e => (Err e, s')
+   | Crash x => (Crash x, s')
+   | Hang => (Hang, s')
+   end).
+Proof. cbn [t_listen]. unfold gen_t_listen_timeout. rewrite Z.gtb_ltb. reflexivity. Qed.
+
+Theorem bridge_i_tmo s rwt dl : tmo s rwt dl = gen_i_tmo rwt (now s) dl.
+Proof. reflexivity. Qed.
+Theorem bridge_i_loops f c s spni fmt pni data rwt dl n ch :
+  i_sdr_loop (S f) c s spni fmt pni data rwt dl =
+    (if gen_i_expired (gen_i_tmo rwt (now s) dl) then (Err TimeoutError, s) else
+     let (r, s1) := i_srr c s fmt pni data (gen_i_tmo rwt (now s) dl) in
+     match r with
+     | Ok res => (Ok res, s1)
+     | Err TimeoutError =>
+         let (a, s2) := i_attention 2 c s1 rwt dl in
+         match a with
+         | Ok _ => i_sdr_loop f c s2 spni fmt pni data rwt dl
+         | Err e => (Err e, s2) | Crash x => (Crash x, s2) | Hang => (Hang, s2)
+         end
+     | Err TransmissionError => i_retrans 2 c s1 spni rwt dl (fmt =? 1)
+     | Err e => (Err e, s1) | Crash x => (Crash x, s1) | Hang => (Hang, s1)
+     end) /\
+  i_attention (S n) c s rwt dl =
+    (if gen_i_expired (gen_i_tmo rwt (now s) dl) then (Err TimeoutError, s) else
+     let (r, s') := i_srr c s 8 0 [] (gen_i_tmo rwt (now s) dl) in
+     match r with
+     | Ok res => if rfmt res =? 9 then (Err ProtocolError, s')
+                 else if negb (rfmt res =? 8) then (Err ProtocolError, s') else (Ok tt, s')
+     | Err _ => i_attention n c s' rwt dl
+     | Crash x => (Crash x, s') | Hang => (Hang, s')
+     end) /\
+  i_retrans (S n) c s pni rwt dl ch =
+    (if gen_i_expired (gen_i_tmo rwt (now s) dl) then (Err TimeoutError, s) else
+     let (r, s') := i_srr c s 5 pni [] (gen_i_tmo rwt (now s) dl) in
+     match r with
+     | Ok res => if rfmt res =? 9 then (Err ProtocolError, s')
+                 else if (rfmt res =? 0) || (rfmt res =? 1) || (ch && (rfmt res =? 4)) then (Ok res, s')
+                 else (Err ProtocolError, s')
+     | Err _ => i_retrans n c s' pni rwt dl ch
+     | Crash x => (Crash x, s') | Hang => (Hang, s')
+     end).
+Proof. repeat split; reflexivity. Qed.
+
 (* ================================================================ src/nfc/llcp/llc.py activate, pdu.py ParameterExchange *)
 Theorem bridge_activate sec g :
   gen_lsc_text_size = len [0; 1; 2; 3] /\ gen_dpc_text_size = len [0; 1] /\
@@ -176,7 +228,7 @@ Qed.
 Theorem bridge_pax_cfg sec d s v m w l o :
   use_pax sec (Pax d s v m w l o) =
   (do _ <- lsc_text o; do _ <- dpc_text o;
-   Ok (true, Some (mkcfg (gen_cfg_rcvd_ver v) (gen_cfg_send_miu m) (gen_cfg_recv_lto l) (gen_cfg_send_wks w)
+   Ok (true, Some (Pax.mkcfg (gen_cfg_rcvd_ver v) (gen_cfg_send_miu m) (gen_cfg_recv_lto l) (gen_cfg_send_wks w)
                          (gen_cfg_send_lsc o) (gen_cfg_llcp_dpc sec o)))).
 Proof. destruct v, m, w, l, o, sec; reflexivity. Qed.
 
